@@ -1034,10 +1034,18 @@ impl Proto for Lt {
                 r(self.c.recv_submit_tx_response().await)
             }
             "RejectTx" => {
-                // what the pallas server writes cannot be decoded by the pallas
-                // client; the raw channel delivers a decodable RejectTx instead
-                self.s_blind = true;
-                self.deliver(Client, "RejectTx").await;
+                use localtxsubmission::Message as M;
+                type Mg = M<localtxsubmission::EraTx, localtxsubmission::TxValidationError>;
+                let own = enc::<Mg>(&M::RejectTx(Self::reject()));
+                if !self.s_blind && minicbor::decode::<Mg>(&own).is_ok() {
+                    r(self.s.send_submit_tx_response(localtxsubmission::Response::Rejected(Self::reject())).await)?;
+                } else {
+                    // what the pallas server writes cannot be decoded by the pallas client
+                    // (codec matter): a raw channel delivers a decodable RejectTx instead
+                    // and the server is no longer followed
+                    self.s_blind = true;
+                    self.deliver(Client, "RejectTx").await;
+                }
                 r(self.c.recv_submit_tx_response().await)
             }
             _ => Err(format!("nodrive {msg}")),
